@@ -6092,6 +6092,14 @@ class Path(Shape, MutableSequence):
             return previous_control.reflected_across(start_pos)
         return start_pos
 
+    def _smooth_control(self, kind):
+        """Control point for a smooth command: the reflection of the previous control point
+        only if the previous segment is a curve of the same degree (SVG 8.3.6, 8.3.7),
+        otherwise the current point."""
+        if len(self._segments) != 0 and isinstance(self._segments[-1], kind):
+            return self.smooth_point
+        return self.current_point
+
     def start(self):
         pass
 
@@ -6164,7 +6172,7 @@ class Path(Shape, MutableSequence):
         the second control point in the previous path."""
         for index in range(len(points)):
             start_pos = self.current_point
-            control1 = self.smooth_point
+            control1 = self._smooth_control(QuadraticBezier)
             end_pos = points[index]
             if end_pos in ("z", "Z"):
                 end_pos = self.z_point
@@ -6202,7 +6210,7 @@ class Path(Shape, MutableSequence):
         the second control point in the previous path."""
         for index in range(0, len(points), 2):
             start_pos = self.current_point
-            control1 = self.smooth_point
+            control1 = self._smooth_control(CubicBezier)
             control2 = points[index]
 
             if control2 in ("z", "Z"):
